@@ -1705,20 +1705,32 @@ where
                 Value::Primitive(mut v) => {
                     self.invalidate_if_charset_changed(tag);
                     // extend value
-                    v.extend_str([string]).context(ModifySnafu)?;
+                    if let Err(e) = v.extend_str([string]) {
+                        // put the untouched element back before reporting the failure
+                        self.put(DataElement::new(tag, header.vr, v));
+                        return Err(e).context(ModifySnafu);
+                    }
                     // reinsert element
                     self.put(DataElement::new(tag, header.vr, v));
                     Ok(())
                 }
 
-                Value::PixelSequence(..) => IncompatibleTypesSnafu {
-                    kind: ValueType::PixelSequence,
+                value @ Value::PixelSequence(..) => {
+                    // put the untouched element back before reporting the failure
+                    self.put(DataElement::new_with_len(tag, header.vr, header.len, value));
+                    IncompatibleTypesSnafu {
+                        kind: ValueType::PixelSequence,
+                    }
+                    .fail()
                 }
-                .fail(),
-                Value::Sequence(..) => IncompatibleTypesSnafu {
-                    kind: ValueType::DataSetSequence,
+                value @ Value::Sequence(..) => {
+                    // put the untouched element back before reporting the failure
+                    self.put(DataElement::new_with_len(tag, header.vr, header.len, value));
+                    IncompatibleTypesSnafu {
+                        kind: ValueType::DataSetSequence,
+                    }
+                    .fail()
                 }
-                .fail(),
             }
         } else {
             // infer VR from tag
@@ -1738,20 +1750,32 @@ where
             match value {
                 Value::Primitive(mut v) => {
                     // extend value
-                    v.extend_i32([integer]).context(ModifySnafu)?;
+                    if let Err(e) = v.extend_i32([integer]) {
+                        // put the untouched element back before reporting the failure
+                        self.put(DataElement::new(tag, header.vr, v));
+                        return Err(e).context(ModifySnafu);
+                    }
                     // reinsert element
                     self.put(DataElement::new(tag, header.vr, v));
                     Ok(())
                 }
 
-                Value::PixelSequence(..) => IncompatibleTypesSnafu {
-                    kind: ValueType::PixelSequence,
+                value @ Value::PixelSequence(..) => {
+                    // put the untouched element back before reporting the failure
+                    self.put(DataElement::new_with_len(tag, header.vr, header.len, value));
+                    IncompatibleTypesSnafu {
+                        kind: ValueType::PixelSequence,
+                    }
+                    .fail()
                 }
-                .fail(),
-                Value::Sequence(..) => IncompatibleTypesSnafu {
-                    kind: ValueType::DataSetSequence,
+                value @ Value::Sequence(..) => {
+                    // put the untouched element back before reporting the failure
+                    self.put(DataElement::new_with_len(tag, header.vr, header.len, value));
+                    IncompatibleTypesSnafu {
+                        kind: ValueType::DataSetSequence,
+                    }
+                    .fail()
                 }
-                .fail(),
             }
         } else {
             // infer VR from tag
@@ -1771,20 +1795,32 @@ where
             match value {
                 Value::Primitive(mut v) => {
                     // extend value
-                    v.extend_u32([integer]).context(ModifySnafu)?;
+                    if let Err(e) = v.extend_u32([integer]) {
+                        // put the untouched element back before reporting the failure
+                        self.put(DataElement::new(tag, header.vr, v));
+                        return Err(e).context(ModifySnafu);
+                    }
                     // reinsert element
                     self.put(DataElement::new(tag, header.vr, v));
                     Ok(())
                 }
 
-                Value::PixelSequence(..) => IncompatibleTypesSnafu {
-                    kind: ValueType::PixelSequence,
+                value @ Value::PixelSequence(..) => {
+                    // put the untouched element back before reporting the failure
+                    self.put(DataElement::new_with_len(tag, header.vr, header.len, value));
+                    IncompatibleTypesSnafu {
+                        kind: ValueType::PixelSequence,
+                    }
+                    .fail()
                 }
-                .fail(),
-                Value::Sequence(..) => IncompatibleTypesSnafu {
-                    kind: ValueType::DataSetSequence,
+                value @ Value::Sequence(..) => {
+                    // put the untouched element back before reporting the failure
+                    self.put(DataElement::new_with_len(tag, header.vr, header.len, value));
+                    IncompatibleTypesSnafu {
+                        kind: ValueType::DataSetSequence,
+                    }
+                    .fail()
                 }
-                .fail(),
             }
         } else {
             // infer VR from tag
@@ -1804,20 +1840,32 @@ where
             match value {
                 Value::Primitive(mut v) => {
                     // extend value
-                    v.extend_i16([integer]).context(ModifySnafu)?;
+                    if let Err(e) = v.extend_i16([integer]) {
+                        // put the untouched element back before reporting the failure
+                        self.put(DataElement::new(tag, header.vr, v));
+                        return Err(e).context(ModifySnafu);
+                    }
                     // reinsert element
                     self.put(DataElement::new(tag, header.vr, v));
                     Ok(())
                 }
 
-                Value::PixelSequence(..) => IncompatibleTypesSnafu {
-                    kind: ValueType::PixelSequence,
+                value @ Value::PixelSequence(..) => {
+                    // put the untouched element back before reporting the failure
+                    self.put(DataElement::new_with_len(tag, header.vr, header.len, value));
+                    IncompatibleTypesSnafu {
+                        kind: ValueType::PixelSequence,
+                    }
+                    .fail()
                 }
-                .fail(),
-                Value::Sequence(..) => IncompatibleTypesSnafu {
-                    kind: ValueType::DataSetSequence,
+                value @ Value::Sequence(..) => {
+                    // put the untouched element back before reporting the failure
+                    self.put(DataElement::new_with_len(tag, header.vr, header.len, value));
+                    IncompatibleTypesSnafu {
+                        kind: ValueType::DataSetSequence,
+                    }
+                    .fail()
                 }
-                .fail(),
             }
         } else {
             // infer VR from tag
@@ -1837,20 +1885,32 @@ where
             match value {
                 Value::Primitive(mut v) => {
                     // extend value
-                    v.extend_u16([integer]).context(ModifySnafu)?;
+                    if let Err(e) = v.extend_u16([integer]) {
+                        // put the untouched element back before reporting the failure
+                        self.put(DataElement::new(tag, header.vr, v));
+                        return Err(e).context(ModifySnafu);
+                    }
                     // reinsert element
                     self.put(DataElement::new(tag, header.vr, v));
                     Ok(())
                 }
 
-                Value::PixelSequence(..) => IncompatibleTypesSnafu {
-                    kind: ValueType::PixelSequence,
+                value @ Value::PixelSequence(..) => {
+                    // put the untouched element back before reporting the failure
+                    self.put(DataElement::new_with_len(tag, header.vr, header.len, value));
+                    IncompatibleTypesSnafu {
+                        kind: ValueType::PixelSequence,
+                    }
+                    .fail()
                 }
-                .fail(),
-                Value::Sequence(..) => IncompatibleTypesSnafu {
-                    kind: ValueType::DataSetSequence,
+                value @ Value::Sequence(..) => {
+                    // put the untouched element back before reporting the failure
+                    self.put(DataElement::new_with_len(tag, header.vr, header.len, value));
+                    IncompatibleTypesSnafu {
+                        kind: ValueType::DataSetSequence,
+                    }
+                    .fail()
                 }
-                .fail(),
             }
         } else {
             // infer VR from tag
@@ -1870,20 +1930,32 @@ where
             match value {
                 Value::Primitive(mut v) => {
                     // extend value
-                    v.extend_f32([number]).context(ModifySnafu)?;
+                    if let Err(e) = v.extend_f32([number]) {
+                        // put the untouched element back before reporting the failure
+                        self.put(DataElement::new(tag, header.vr, v));
+                        return Err(e).context(ModifySnafu);
+                    }
                     // reinsert element
                     self.put(DataElement::new(tag, header.vr, v));
                     Ok(())
                 }
 
-                Value::PixelSequence(..) => IncompatibleTypesSnafu {
-                    kind: ValueType::PixelSequence,
+                value @ Value::PixelSequence(..) => {
+                    // put the untouched element back before reporting the failure
+                    self.put(DataElement::new_with_len(tag, header.vr, header.len, value));
+                    IncompatibleTypesSnafu {
+                        kind: ValueType::PixelSequence,
+                    }
+                    .fail()
                 }
-                .fail(),
-                Value::Sequence(..) => IncompatibleTypesSnafu {
-                    kind: ValueType::DataSetSequence,
+                value @ Value::Sequence(..) => {
+                    // put the untouched element back before reporting the failure
+                    self.put(DataElement::new_with_len(tag, header.vr, header.len, value));
+                    IncompatibleTypesSnafu {
+                        kind: ValueType::DataSetSequence,
+                    }
+                    .fail()
                 }
-                .fail(),
             }
         } else {
             // infer VR from tag
@@ -1903,20 +1975,32 @@ where
             match value {
                 Value::Primitive(mut v) => {
                     // extend value
-                    v.extend_f64([number]).context(ModifySnafu)?;
+                    if let Err(e) = v.extend_f64([number]) {
+                        // put the untouched element back before reporting the failure
+                        self.put(DataElement::new(tag, header.vr, v));
+                        return Err(e).context(ModifySnafu);
+                    }
                     // reinsert element
                     self.put(DataElement::new(tag, header.vr, v));
                     Ok(())
                 }
 
-                Value::PixelSequence(..) => IncompatibleTypesSnafu {
-                    kind: ValueType::PixelSequence,
+                value @ Value::PixelSequence(..) => {
+                    // put the untouched element back before reporting the failure
+                    self.put(DataElement::new_with_len(tag, header.vr, header.len, value));
+                    IncompatibleTypesSnafu {
+                        kind: ValueType::PixelSequence,
+                    }
+                    .fail()
                 }
-                .fail(),
-                Value::Sequence(..) => IncompatibleTypesSnafu {
-                    kind: ValueType::DataSetSequence,
+                value @ Value::Sequence(..) => {
+                    // put the untouched element back before reporting the failure
+                    self.put(DataElement::new_with_len(tag, header.vr, header.len, value));
+                    IncompatibleTypesSnafu {
+                        kind: ValueType::DataSetSequence,
+                    }
+                    .fail()
                 }
-                .fail(),
             }
         } else {
             // infer VR from tag
